@@ -5,6 +5,7 @@ import (
 	"go/types"
 	"math/big"
 	"os"
+	"strings"
 	"time"
 
 	"cachelint/pw"
@@ -26,6 +27,36 @@ func sameTTLCell(v, ctx *pw.Val) bool {
 		if v.Kind == pw.KCall && v.Ev != nil && len(v.Ev.Args) > 0 {
 			switch v.Ev.Role {
 			case "Std:context.WithValue", "Repo:WithSkipRead", "Repo:withoutSkipRead":
+				v = v.Ev.Args[0]
+				continue
+			}
+		}
+		return false
+	}
+	return false
+}
+
+// keepsSkipRead: v is the caller's context or a wrapper of it through which the caller's SkipRead flag is still visible (not through
+// withoutSkipRead, which masks it).
+func keepsSkipRead(v, ctx *pw.Val) bool {
+	for i := 0; v != nil && i < 6; i++ {
+		if v == ctx {
+			return true
+		}
+		if v.Kind == pw.KAlloc && namedTypeName(v.Type) == "detachedContext" {
+			v = soleField(v)
+			continue
+		}
+		if v.Kind == pw.KCall && v.Ev != nil && len(v.Ev.Args) > 0 {
+			switch v.Ev.Role {
+			case "Std:context.WithValue":
+				// (withoutSkipRead inlined) a value installed under the SkipRead key hides the caller's flag
+				if len(v.Ev.Args) == 3 && v.Ev.Args[1] != nil && strings.Contains(strings.ToLower(namedTypeName(v.Ev.Args[1].Type)), "skipread") {
+					return false
+				}
+				v = v.Ev.Args[0]
+				continue
+			case "Repo:WithTTL", "Repo:WithSkipRead":
 				v = v.Ev.Args[0]
 				continue
 			}
@@ -67,6 +98,15 @@ func checkC06(c *Ctx) {
 		// instance is taken after the defaults were applied)
 		c.ctorDefaults("R06.2", "New"+sib, "config", map[string]*big.Rat{"UpdateTTL": big.NewRat(60*1000000000, 1)})
 	}
+	// "a built value is stored …": the final store happens for every successful build (C05 R05.2), whatever the caller's context
+	// did meanwhile
+	c.borrow("C05", func() {
+		for _, sib := range siblings {
+			if fo := c.failover(sib); fo.Err == nil {
+				c.c05Sibling(fo)
+			}
+		}
+	}, func(o *coreObl) (string, bool) { return "R06.1", o.Rule == "R05.2" })
 	c.c06WithTTL()
 	c.c06Accessors()
 	c.c06Detached()
@@ -761,7 +801,7 @@ func (c *Ctx) c06Accessors() {
 				switch name {
 				case "Read":
 					n++
-					if len(ev.Args) < 1 || !derivedCtx(ev.Args[0], fo.Ctx) {
+					if len(ev.Args) < 1 || !keepsSkipRead(ev.Args[0], fo.Ctx) {
 						d, t := c.pathDetail(fo, p, "the failure cache is consulted under a context that is not the caller's: SkipRead no longer forces a rebuild")
 						r.Bad("R06.7", cons, "failure-lookup-ctx", c.Pos(ev.Pos), d, t)
 						bad = true
